@@ -15,7 +15,9 @@ static HOOK: Once = Once::new();
 
 fuzz_target!(|data: &[u8]| {
     // panics of the library are outcomes (caught per operation by the harness code), not crashes of the explorer
-    HOOK.call_once(|| { std::panic::set_hook(Box::new(|_| {})); exec::QUIET.store(true, std::sync::atomic::Ordering::Relaxed); });
+    HOOK.call_once(|| { std::panic::set_hook(Box::new(|_| {})); exec::QUIET.store(true, std::sync::atomic::Ordering::Relaxed);
+        if let Ok(v) = std::env::var("LM_SHAPE") { if let Ok(k) = v.parse::<u8>() { bytecase::FORCE_SHAPE.store(k, std::sync::atomic::Ordering::Relaxed); } }
+    });
     let mut u = bytecase::U::new(data);
     let cfg = bytecase::cfg_from(&mut u);
     let mut sink = std::io::sink();
